@@ -26,6 +26,14 @@ class Unsupported(Exception):
     pass
 
 
+class Fatal(Exception):
+    """an element after an error stop ('-') failed: the parse is abandoned, nothing backtracks over this (C07)"""
+
+    def __init__(self, loc):
+        super().__init__(loc)
+        self.loc = loc
+
+
 class Ref:
     def __init__(self, prog, keyword_chars=KEYWORD_CHARS, ws=WS, each_twice=False):
         self.defs, self.fwd = {}, {}
@@ -33,6 +41,8 @@ class Ref:
         # optional, so it can be consumed twice) - only used to recognise the registered finding
         self.each_twice = each_twice
         self.ws, self.kw = ws, keyword_chars
+        self.node_ws = {}    # copies made with set_whitespace_chars: the copy itself skips its own set, then runs its
+        #                      expression without a further leading skip (the element was pre-parsed by the copy)
         for st in prog:
             var, op, *a = st
             if var == "_":
@@ -40,6 +50,11 @@ class Ref:
                     self.fwd[a[0]] = a[1]
                 else:
                     raise Unsupported(op)
+            elif op == "set_whitespace_chars":
+                self.node_ws[var] = a[1]
+                self.defs[var] = ("copy", [a[0]])
+            elif op == "leave_whitespace":
+                self.defs[var] = ("tight", [a[0]])
             else:
                 self.defs[var] = (op, a)
         self._n = 0
@@ -52,6 +67,14 @@ class Ref:
         for f, b in self.fwd.items():
             if not self.skips(b):
                 raise Unsupported("Forward body does not skip whitespace")
+        # error stops: which elements a '-' protects follows streamline()'s flattening; that is unambiguous for chains
+        # written with binary + / - (flattened completely), not for a sequence containing '-' that is itself an element
+        # of And([...]) / e*n / e[m,n] / DelimitedList(e) (flattened or not depending on the arity) - outside the reading
+        for v, (op, a) in self.defs.items():
+            if op in ("And", "*"):
+                for x in (a[0] if op == "And" else [a[0]]):
+                    if self.seq_node(x) is not None and "<STOP>" in self.flat_seq(x):
+                        raise Unsupported("error stop inside a non-binary sequence")
 
     # ---- documented desugarings: e[m,n] == e*(m,n) == m copies + nested optionals / ZeroOrMore;
     #      DelimitedList(e, d, min, max, trailing, combine) == e + (d + e)*(min-1, max-1) [+ Opt(d)] [in Combine] ----
@@ -110,9 +133,9 @@ class Ref:
             return True
         op, a = self.defs[v]
         seen = seen + (v,)
-        if op in ("CharsNotIn", "~", "NotAny"):
+        if op in ("CharsNotIn", "~", "NotAny", "tight"):
             r = False
-        elif op in ("+", "And", "*"):
+        elif op in ("+", "-", "And", "*"):
             first = a[0] if op != "And" else a[0][0]
             r = self.skips(first, seen)
         elif op in ("|", "^"):
@@ -155,15 +178,54 @@ class Ref:
         if self.steps > 200000:
             raise Unsupported("too many steps")
         op, a = self.defs[v]
+        if v in self.node_ws:
+            if not tight and not top_noskip and self.skips(v) and self.cp(v):
+                i = self.skip(s, i, self.node_ws[v])
+            return self.body(v, op, a, s, i, tight, True)
         if not tight and not top_noskip and self.skips(v) and self.cp(v):
             i = self.skip(s, i, " \t\r" if op == "LineEnd" else None)
         return self.body(v, op, a, s, i, tight, top_noskip)
 
+    def ev_soft(self, v, s, i, tight, **kw):
+        """negative lookahead (NotAny, stop_on, fail_on): a fatal failure counts as a non-match.
+        stop_on / fail_on expressions are called with tight=False even inside a Combine(adjacent) region: Combine's
+        leave_whitespace() copies and changes the repeated / target expression only, the sentinel keeps skipping."""
+        try:
+            return self.ev(v, s, i, tight, **kw)
+        except Fatal:
+            return FAIL
+
+    def seq_node(self, v):
+        """v, seen through copy(): a copy of a sequence is that sequence (and is flattened like it)"""
+        seen = set()
+        while self.defs[v][0] == "copy" and v not in seen:
+            seen.add(v)
+            v = self.defs[v][1][0]
+        return v if self.defs[v][0] in ("+", "-") else None
+
+    def flat_seq(self, v):
+        """the elements of a sequence written with + and -, nested chains flattened as streamline() does;
+        STOP marks an error stop"""
+        n = self.seq_node(v)
+        if n is None:
+            return [v]
+        op, a = self.defs[n]
+        # (a + b) + c == a + (b + c) == And([a, b, c]): a nested sequence on either side is part of this sequence
+        l = self.flat_seq(a[0]) if self.seq_node(a[0]) is not None else [a[0]]
+        r = self.flat_seq(a[1]) if self.seq_node(a[1]) is not None else [a[1]]
+        return l + (["<STOP>"] if op == "-" else []) + r
+
     def seq(self, items, s, i, tight, edge=False):
-        toks = []
-        for k, x in enumerate(items):
-            r = self.ev(x, s, i, tight, top_noskip=edge and k == 0)
+        toks, stopped, first = [], False, True
+        for x in items:
+            if x == "<STOP>":
+                stopped = True
+                continue
+            r = self.ev(x, s, i, tight, top_noskip=edge and first)
+            first = False
             if r is FAIL:
+                if stopped:
+                    raise Fatal(i)
                 return FAIL
             i, t = r
             toks += t
@@ -172,7 +234,7 @@ class Ref:
     def many(self, e, s, i, tight, lo, hi, stop=None):
         toks, n = [], 0
         while hi is None or n < hi:
-            if stop is not None and self.ev(stop, s, i, tight) is not FAIL:
+            if stop is not None and self.ev_soft(stop, s, i, False) is not FAIL:
                 break
             r = self.ev(e, s, i, tight)
             if r is FAIL:
@@ -345,9 +407,10 @@ class Ref:
             if i < n:
                 return (i + 1, ["\n"]) if s[i] == "\n" else FAIL
             return (n + 1, []) if i == n else FAIL
-        if op in ("+", "And"):
-            items = list(a[0]) if op == "And" else [a[0], a[1]]
-            return self.seq(items, s, i, tight, edge)
+        if op in ("+", "-"):
+            return self.seq(self.flat_seq(v), s, i, tight, edge)
+        if op == "And":
+            return self.seq(list(a[0]), s, i, tight, edge)
         if op == "*":
             return self.seq([a[0]] * a[1], s, i, tight, edge)
         if op in ("|", "MatchFirst"):
@@ -357,14 +420,23 @@ class Ref:
                     return r
             return FAIL
         if op in ("^", "Or"):
-            best = FAIL
+            best, fatals = FAIL, []
             for x in (a[0] if op == "Or" else a[:2]):
-                r = self.ev(x, s, i, tight)
+                try:
+                    r = self.ev(x, s, i, tight)
+                except Fatal as f:
+                    fatals.append(f)
+                    continue
                 if r is not FAIL and (best is FAIL or r[0] > best[0]):
                     best = r
+            if best is FAIL and fatals:
+                raise max(fatals, key=lambda f: f.loc)   # raised only when no alternative matches
             return best
         if op in ("Each", "&"):
-            return self.each(self.each_operands(v), s, i, tight)
+            try:
+                return self.each(self.each_operands(v), s, i, tight)
+            except Fatal:
+                raise Unsupported("fatal inside Each")
         if op == "Opt":
             r = self.ev(a[0], s, i, tight, top_noskip=edge)
             if r is not FAIL:
@@ -374,11 +446,11 @@ class Ref:
             return self.many(a[0], s, i, tight, 0, None, a[1] if len(a) > 1 else None)
         if op == "OneOrMore":
             stop = a[1] if len(a) > 1 else None
-            if stop is not None and self.ev(stop, s, i, tight) is not FAIL:
+            if stop is not None and self.ev_soft(stop, s, i, False) is not FAIL:
                 return FAIL
             return self.many(a[0], s, i, tight, 1, None, stop)
         if op in ("~", "NotAny"):
-            return (i, []) if self.ev(a[0], s, i, tight) is FAIL else FAIL
+            return (i, []) if self.ev_soft(a[0], s, i, tight) is FAIL else FAIL
         if op == "FollowedBy":
             return (i, []) if self.ev(a[0], s, i, tight) is not FAIL else FAIL
         if op == "Group":
@@ -387,7 +459,11 @@ class Ref:
         if op == "Suppress":
             r = self.ev(a[0], s, i, tight, top_noskip=edge)
             return FAIL if r is FAIL else (r[0], [])
+        if op == "tight":    # expr.copy().leave_whitespace(): nothing inside skips
+            return self.ev(a[0], s, i, True)
         if op == "copy":
+            if self.seq_node(v) is not None:
+                return self.seq(self.flat_seq(v), s, i, tight, edge)
             return self.ev(a[0], s, i, tight, top_noskip=edge)
         if op == "Located":
             r = self.ev(a[0], s, i, tight, top_noskip=True)
@@ -405,7 +481,7 @@ class Ref:
                 raise Unsupported("SkipTo ignore")
             k = i
             while k <= n:
-                if fo and self.ev(fo, s, k, tight) is not FAIL:
+                if fo and self.ev_soft(fo, s, k, False) is not FAIL:
                     return FAIL
                 r = self.ev(a[0], s, k, tight, top_noskip=True)
                 if r is not FAIL:
@@ -415,6 +491,10 @@ class Ref:
                 k += 1
             return FAIL
         if op == "Forward":
+            if tight:
+                # Forward.leave_whitespace() does not reach the Forward's expression: alternatives inside it keep
+                # skipping whitespace although they sit in a Combine(adjacent) region (registered C09 finding)
+                raise Unsupported("Forward inside Combine")
             b = self.fwd.get(v)
             return FAIL if b is None else self.ev(b, s, i, tight, top_noskip=edge)
         raise Unsupported(op)
@@ -428,5 +508,8 @@ class Ref:
     def parse(self, root, s):
         """outcome of parse_string(s): ("ok", tokens) | ("fail",)"""
         self.steps = 0
-        r = self.ev(root, s.expandtabs(), 0)
+        try:
+            r = self.ev(root, s.expandtabs(), 0)
+        except Fatal:
+            return ("fatal",)
         return ("fail",) if r is FAIL else ("ok", r[1])
